@@ -388,6 +388,150 @@ def _is_header_len(ctx, ctor, field):
     return False
 
 
+def _layout_types(ctx, layout_fn):
+    """(header type, item type) as LAYOUT names them: Layout::new::<H>() is extended by a layout built from Layout::new::<I>()."""
+    lf = ctx.flow(layout_fn)
+    for bb, t, fn in direct_sites(layout_fn, r"core::alloc::Layout::extend$"):
+        recv, nxt = strip_refs(lf.operand_expr(t["args"][0])), strip_refs(lf.operand_expr(t["args"][1]))
+        hs = [c for c in ([recv] if recv[0] == "call" else []) + list(expr_calls(recv)) if (c[1] or "").endswith("Layout::new")]
+        its = [c for c in ([nxt] if nxt[0] == "call" else []) + list(expr_calls(nxt)) if re.search(r"Layout::(new|array)$", c[1] or "")]
+        if len(hs) == 1 and len({_site_type_arg(layout_fn, c[3]) for c in its}) == 1:
+            return _site_type_arg(layout_fn, hs[0][3]), _site_type_arg(layout_fn, its[0][3])
+    return None
+
+
+class _NoOffsetModel(Exception):
+    pass
+
+
+def _site_type_arg(b, site):
+    t = b.term(site)
+    fn = (t.get("func") or {}).get("fn") or {}
+    a = fn.get("def_args") or []
+    return a[0] if a else None
+
+
+def _eval_offset(b, e, S, A, seen):
+    """Value of a byte-offset expression in a 16-bit wrapping model of usize where the size of the type whose size is asked is
+    S and the alignment of the type whose alignment is asked is A; `seen` collects ("size"|"align", type)."""
+    M = 0xFFFF
+    e = strip_refs(e)
+
+    def ev(x):
+        return _eval_offset(b, x, S, A, seen)
+    if e[0] == "proj" and e[2] == (".0",) and e[1][0] == "binop" and e[1][1].endswith("WithOverflow"):
+        e = ("binop", e[1][1].replace("WithOverflow", ""), e[1][2], e[1][3])
+    if e[0] == "proj" and e[2] in (("@Some", ".0"), ("@Ok", ".0")) and e[1][0] == "call" and re.search(r"::checked_(add|sub|mul)$", e[1][1] or ""):
+        nm = e[1][1].rsplit("_", 1)[1]
+        return ev(("binop", {"add": "Add", "sub": "Sub", "mul": "Mul"}[nm], e[1][2][0], e[1][2][1]))
+    if e[0] == "const":
+        try:
+            v = int(e[2])
+        except (TypeError, ValueError):
+            raise _NoOffsetModel("const")
+        if v > 0x100:
+            raise _NoOffsetModel("const %d" % v)
+        return v
+    if e[0] == "call":
+        nm = e[1] or ""
+        if re.search(r"core::mem::size_of$", nm):
+            seen.add(("size", _site_type_arg(b, e[3])))
+            return S
+        if re.search(r"core::mem::align_of$", nm):
+            seen.add(("align", _site_type_arg(b, e[3])))
+            return A
+        if re.search(r"core::alloc::Layout::(size|align)$", nm) and e[2]:
+            l_ = strip_refs(e[2][0])
+            if l_[0] == "call" and re.search(r"core::alloc::Layout::new$", l_[1] or ""):
+                kind = "size" if nm.endswith("size") else "align"
+                seen.add((kind, _site_type_arg(b, l_[3])))
+                return S if kind == "size" else A
+            raise _NoOffsetModel("layout of " + expr_str(l_)[:40])
+        m = re.search(r"core::num::<impl usize>::(wrapping|saturating)_(add|sub|mul)$", nm)
+        if m and len(e[2]) == 2:
+            a, c = ev(e[2][0]), ev(e[2][1])
+            r = {"add": a + c, "sub": a - c, "mul": a * c}[m.group(2)]
+            if m.group(1) == "saturating":
+                return max(0, min(M, r))
+            return r & M
+        if re.search(r"core::num::<impl usize>::next_multiple_of$", nm) and len(e[2]) == 2:
+            a, c = ev(e[2][0]), ev(e[2][1])
+            if c == 0:
+                raise _NoOffsetModel("multiple of 0")
+            return (a + c - 1) // c * c
+        if re.search(r"core::num::<impl usize>::div_ceil$", nm) and len(e[2]) == 2:
+            a, c = ev(e[2][0]), ev(e[2][1])
+            if c == 0:
+                raise _NoOffsetModel("division by 0")
+            return (a + c - 1) // c
+        if re.search(r"core::cmp::(max|Ord::max)$", nm) and len(e[2]) == 2:
+            return max(ev(e[2][0]), ev(e[2][1]))
+        raise _NoOffsetModel(nm.split("::")[-1])
+    if e[0] == "binop":
+        a, c = ev(e[2]), ev(e[3])
+        op = e[1].replace("Unchecked", "")
+        if op == "Add":
+            if a + c > M:
+                raise _NoOffsetModel("overflow")
+            return a + c
+        if op == "Sub":
+            if a < c:
+                raise _NoOffsetModel("underflow")
+            return a - c
+        if op == "Mul":
+            if a * c > M:
+                raise _NoOffsetModel("overflow")
+            return a * c
+        if op in ("Div", "Rem"):
+            if c == 0:
+                raise _NoOffsetModel("division by 0")
+            return a // c if op == "Div" else a % c
+        if op == "BitAnd":
+            return a & c
+        if op == "BitOr":
+            return a | c
+        if op == "BitXor":
+            return a ^ c
+        if op == "Shl" and c < 16:
+            return (a << c) & M
+        if op == "Shr" and c < 16:
+            return a >> c
+        raise _NoOffsetModel(op)
+    if e[0] == "unop" and e[1] == "Not":
+        return (~ev(e[2])) & M
+    if e[0] == "cast":
+        return ev(e[-1]) if isinstance(e[-1], tuple) else ev(e[1])
+    raise _NoOffsetModel(e[0])
+
+
+def offset_is_padded_header_size(ctx, b, off):
+    """The byte offset between the header and the item slice means `size_of::<Header>() rounded up to align_of::<Item>()` -- the
+    offset `Layout::extend` uses when LAYOUT sizes the block: decided by evaluating the expression for every header size
+    0..=96 and every power-of-two alignment up to 128.  -> (ok | None when the expression is outside the model, detail)"""
+    off = strip_refs(off)
+    if off[0] == "const" and len(off) > 3 and off[3] in ctx.facts.bodies:
+        cb = ctx.facts.bodies[off[3]]
+        b, off = cb, strip_refs(ctx.flow(cb).local_expr(0))
+    if off[0] == "proj" and any((c[1] or "").endswith("Layout::extend") for c in expr_calls(off)) and off[2][-1] == ".1":
+        return True, "the offset Layout::extend reports"
+    seen = set()
+    try:
+        for S in range(0, 97):
+            for A in (1, 2, 4, 8, 16, 32, 64, 128):
+                seen.clear()
+                v = _eval_offset(b, off, S, A, seen)
+                want = (S + A - 1) // A * A
+                if v != want:
+                    return False, "header size %d, item alignment %d: offset %d, Layout::extend places the items at %d" % (S, A, v, want)
+    except _NoOffsetModel as ex:
+        return None, "outside the model: %s" % ex
+    st = {t for k, t in seen if k == "size"}
+    at = {t for k, t in seen if k == "align"}
+    if len(st) != 1 or len(at) != 1:
+        return False, "size of %s, alignment of %s" % (sorted(map(str, st)), sorted(map(str, at)))
+    return True, "size_of::<%s>() rounded up to align_of::<%s>()" % (list(st)[0], list(at)[0])
+
+
 def r3_5(ctx, R, layout_fn):
     ctx.rule("R3.5", "header-pointer arithmetic agreement: (a) the byte-offset helper is used by exactly the slice-start "
                      "computation, the reverse computation and the constructor; (b) in the constructor every "
@@ -423,6 +567,15 @@ def r3_5(ctx, R, layout_fn):
     uses_layout = all(_layout_derived(s_) for s_ in steps)
     ctx.ob("R3.5", ctor, "(a) one offset computation, used forward and backward", len(shapes) == 1 and fwd >= 2 and rev >= 1 and uses_layout, d_loc(ctor),
            "%d byte-offset steps (add %d, sub %d), %d distinct offset shapes: %s" % (len(steps), fwd, rev, len(shapes), [x[:90] for x in sorted(shapes)][:2]))
+    # (e) what the offset MEANS: the place where LAYOUT (Layout::extend) puts the items
+    hdr_item = _layout_types(ctx, layout_fn)
+    for (b_, bb_, kind_, shp_, off_) in steps:
+        ok_, det_ = offset_is_padded_header_size(ctx, b_, off_)
+        if ok_ and hdr_item and " rounded up " in det_:
+            m_ = re.match(r"size_of::<(.*)>\(\) rounded up to align_of::<(.*)>\(\)$", det_)
+            if m_ and (m_.group(1), m_.group(2)) != hdr_item:
+                ok_, det_ = False, det_ + " but LAYOUT extends the layout of %s by items of %s" % hdr_item
+        ctx.ob("R3.5", b_, "(e) offset = header size rounded up to item alignment@%s" % _site_label(b_, bb_), bool(ok_), b_.loc(bb_), det_)
     in_ctor = any(s_[0].path == ctor.path and s_[2] == "add" for s_ in steps)
     ctx.ob("R3.5", ctor, "(a) the constructor places the items at that offset", in_ctor, d_loc(ctor))
     # (b) constructor writes: every item slice+K, K in 0..=cap, is written with index K; the stub is slice+cap
